@@ -1213,6 +1213,10 @@ def valstack_writers(P, res):
         w_ = base if base in tbl else owner.get(base)
         if w_ is not None and (w_ == base or opset(ws) <= set(ops_tbl.get(w_, []))):
             extra = opset(ws) - set(ops_tbl.get(w_, opset(ws)))
+            # a reviewed writer that no longer exists was inlined into its caller: its kinds of writes travel with it
+            for gone in tbl:
+                if gone not in P.funcs and gone in ops_tbl:
+                    extra -= set(ops_tbl[gone])
             if w_ == base and extra and w_ in ops_tbl:
                 res.bad("VALSTACK-WRITERS", "%s # new kind of write # %s" % (base, sorted(extra)),
                         "`%s` is a reviewed writer of the evaluator's stacks, but it now also performs %s, which was not part of what was reviewed (%s)" % (
